@@ -92,10 +92,26 @@ func init() {
 		ID:    "C08",
 		Level: "exploration",
 		Rule: "seeded single-RPC scenarios on the dynamic sim service (client form x method shape x service protocol/codec/compression subsets x messages), each run twice: " +
-			"atomically and under drawn segmentations of the request deliveries, handler read-buffer sizes, handler write pieces/flushes, response-writer flavour, pool and scheduling policy; " +
+			"(in a third of the runs under a message-size limit just above the largest single message) atomically and under drawn segmentations of the request deliveries, handler read-buffer sizes, handler write pieces/flushes, response-writer flavour, pool and scheduling policy; " +
 			"distinct = (form>target/adapter path/shape, schedule hash); non-trivial = at least one request message decoded by the backend and one response message decoded by the client",
 		Gen: func(c *Chooser, tier string) *Plan {
-			return genScenario(c, ScenOpts{Segment: true, MaxMsgs: 3, MaxBytes: 200})
+			p := genScenario(c, ScenOpts{Segment: true, MaxMsgs: 3, MaxBytes: 200})
+			if p != nil && c.Prob(0.3) {
+				// a limit that every single message fits under in every encoding, but two messages together do not: a bound
+				// that is (wrongly) applied per read or per write instead of per message shows up as a split-dependent failure
+				largest := 0
+				rc := &p.RPCs[0]
+				n := refNegotiate(&p.Config.Services[0], rc.Client.Form, rc.Client.Codec, rc.Client.Compression)
+				for _, ms := range append(append([]MsgSpec{}, rc.Client.Msgs...), rc.Backend.Resp.Msgs...) {
+					// the encodings this message takes on this path: the two peers' own and the transcoder's re-encodings
+					for _, codec := range []string{rc.Client.Codec, n.Codec} {
+						largest = maxInt(largest, sizeUnderRef(codec, ms.Data))
+						largest = maxInt(largest, sizeUnder(codec, ms.Data))
+					}
+				}
+				p.Config.Services[0].MaxMsg = uint32(largest + 64)
+			}
+			return p
 		},
 		Oracle:     c08Oracle,
 		Components: stdComponents,
